@@ -57,7 +57,7 @@ def operand_values(kind, tier):
     if kind == 'float':
         return base + [-b for b in base[:2]] + [0.0]
     c = si.CONSTRAINT[kind]
-    out = list(base) + [3]                 # 3: an integer-valued quantity
+    out = list(base) + [3, True]           # 3: an integer-valued quantity; True: a bool is an int, the constructors take it as 1
     if c is None:
         out += [-b for b in base[:2]] + [0.0]
     elif c == 'nonneg':
